@@ -47,9 +47,11 @@ def gen(rng, tier, index):
     # backend=False (undocumented serial debugging mode) has no background
     # work and is exercised by C04 only.
     backends = ('t',) if rng.random() < 0.6 else tuple(pargen.BACKENDS_POOL)
+    user_src = rng.random() < 0.08
     while True:
         desc, a = pargen.gen_desc(
             rng, max_n=7, min_n=1, max_up=2, max_down=1, falsy_p=0.12, batched_p=0.5,
+            source_kind='user' if user_src else None,
             par_kw=dict(backends=backends, max_extra_b=2, catch_p=0.45))
         pi = pargen.par_index(desc)
         # batch(drop_last=True) makes sequential *iteration* evaluate tail
@@ -69,6 +71,12 @@ def gen(rng, tier, index):
         k = rng.randrange(2, 4)
         plans.append([{'stage': rng.choice(sites), 'pos': rng.randrange(n),
                        'exc': rng.choice(KINDS)} for _ in range(k)])
+    pst_ = desc['stages'][pi]
+    if user_src and (pst_['op'] == 'parmap' or not pargen.is_pool(pst_)):
+        # setting up the iteration over the user's dataset fails: iter() itself raises
+        # (a multi-worker prefetch evaluates by index and never iterates its input)
+        plans = [[{'stage': 'src_iter', 'pos': 0, 'exc': k_}] for k_ in
+                 rng.sample(KINDS, 3)] + plans[:4]
     cases = []
     for plan in plans:
         cases.append({
